@@ -318,6 +318,17 @@ func GenScenario(p *Program, r *Rand, exec uint64, tagName string, k int) *Scena
 				keep(f.ID, predOutcome(false))
 			}
 		}
+	case "wide":
+		// Every function is held until as many are in flight as the limit
+		// allows (and a little longer, so that any excess shows).
+		for _, f := range fns {
+			if f.Role == "task" || f.Role == "ptask" {
+				o := s.Out[f.ID]
+				o.Gate = true
+				s.Out[f.ID] = o
+			}
+		}
+		s.GateOpen = "hwm"
 	case "state":
 		// One function is held until the first scheduler state report arrives
 		// (the default flush interval is 100 ms); the report releases it.
